@@ -370,7 +370,10 @@ fn main() {
                 let fs = rdbv::faultfs::FaultFs::new();
                 let o = v::options_with(std::sync::Arc::new(fs.clone()), 4096);
                 let f2 = fs.clone();
-                let (ok, installed) = v::vset_log_and_apply_edit(o, a[1] == "created", 77, &move || f2.arm("manifest", k, true));
+                // optional: a[2] = path fragment whose k-th mutating operation fails (default "manifest"), a[3] = once | sticky
+                let frag = if a.len() > 2 { a[2].to_string() } else { "manifest".to_string() };
+                let sticky = !(a.len() > 3 && a[3] == "once");
+                let (ok, installed) = v::vset_log_and_apply_edit(o, a[1] == "created", 77, &move || f2.arm(&frag, k, sticky));
                 let failed = fs.failures() > 0;
                 println!("try{}=result:{} installed:{} append_failed:{}", k, if ok { "Ok" } else { "Err" }, installed, failed);
                 if failed && ok && !shown {
@@ -969,6 +972,20 @@ fn main() {
                     Err(e) => println!("get_after_damage=Err({})", format!("{:?}", e).chars().take(60).collect::<String>()),
                 },
             }
+        }
+        "log_reopen_len_fault" => {
+            // a log with one record is reopened for appending while the size query on the new handle fails
+            let fs = rdbv::faultfs::FaultFs::new();
+            let afs: std::sync::Arc<dyn raindb::fs::FileSystem> = std::sync::Arc::new(fs.clone());
+            let path = std::path::PathBuf::from("wal-1.log");
+            {
+                let mut w = v::VLogWriter::new(std::sync::Arc::clone(&afs), &path, false).unwrap();
+                w.append(&vec![7u8; 100]).unwrap();
+            }
+            fs.fail_next_len(1);
+            let r = v::VLogWriter::new(std::sync::Arc::clone(&afs), &path, true);
+            println!("len_failed={}", fs.failures() > 0);
+            println!("writer_new={}", if r.is_ok() { "Ok" } else { "Err" });
         }
         "vs_recover" => {
             // a database is created, written and closed; a fresh version set recovers from its files
